@@ -209,6 +209,12 @@ fn check_state(m: &mut Monitor, case: u64, mc: &ModelCase, ss: &StateSpec, seed:
             m.check(&format!("scale:{name}"), &sig, case, dev, TOL_SCALE * lowdens * f, det(name, vec![x, y, lam]));
         };
         let a2 = s2.residual_helmholtz_energy().to_reduced();
+        if !a2.is_finite() {
+            // the original state is finite (checked above), its scaled copy is not: reported once,
+            // under its own signature (SAFT-VR Mie cross-association NaN, finding F26 of C09)
+            m.check_bool("scale:finite", &format!("{fam}|scale: non-finite A_res of the scaled state"), case, false, det("scaled state not finite", vec![a, a2, lam]));
+            return;
+        }
         // natural magnitude of the residual energy per particle (A itself passes through zero)
         let sa = crate::c01::energy_scale(&st) / ntot;
         cmp(m, "a/N", a / ntot, a2 / (ntot * lam), sa * 1e-3);
